@@ -5,6 +5,16 @@ ROOT = os.path.dirname(os.path.dirname(os.path.abspath(__file__)))
 IDS = ["C%02d" % i for i in range(1, 21)]
 
 CHECKS = {
+    "C02": dict(
+        technique="TLC invariants NoPanic / WFInvariant / EmittedBalanced on the pipeline, edit and body models; validity monitor (Trace_Valid.tla) and trace validation of TLC-generated edit histories (Trace_Edits.tla)",
+        text="Walrus.tla (parse, GC worklist, section-ordered emission with index assignment) is model-checked over all families and pass sequences: every get_*_index of an emit action finds an assigned id (NoPanic). Edits.tla defines the well-formed edits (guards = no dangling reference) and TLC checks they keep the module closed. On the implementation every valid input x {none, GC} x names x producers must complete and validate, and TLC-generated well-formed edit scripts (every enabled single edit of sampled real modules plus random walks) are replayed through the public API, validated step by step and closed by emit and gc;emit which must validate.",
+        note="Trusted: wasmparser validator with walrus's feature list, TLC. DWARF-on emission is exercised by C10's check. One known finding (GC vs. declaring passive segment).",
+        design_ref="DESIGN.md §5 C02"),
+    "C18": dict(
+        technique="trace validation of TLC-generated edit histories against the state transformers of Edits.tla (st' = predicted state), transformers model-checked for the rewiring properties",
+        text="Edits.tla gives replace_imported_func and replace_exported_func as transformers of the Module's observable state; TLC checks on small states and all edit sequences of length <= 3 that a replacement changes exactly the function (kept id, now local, same signature) and removes exactly its import, resp. adds exactly one function and retargets exactly one export. TLC then generates scripts from the states of real parsed modules (replacements on every function, failing ones included); after every API call the complete observable state must equal the predicted one, an Err must change nothing, and emit / gc;emit must validate.",
+        note="Trusted: TLC, the public accessors used for the snapshot, wasmparser validator. The behavioural effect is derived from the state relation (callers keep naming the same id), not executed.",
+        design_ref="DESIGN.md §5 C18"),
     "C13": dict(
         technique="names relation (forward / converse, modulo sigma and the observed local map) evaluated by TLC on recorded round trips (Trace_Names.tla)",
         text="For every recorded round trip (with and without GC) TLC checks that each input name of a still-emitted entity (module, function, local, type, table, memory, global, element, data) is attached to the renumbered entity in the output name section and that every output name has such an origin (no migration); local names use the local correspondence observed by aligning local operands of the surviving operators; tolerated: unused locals/parameters, label/field/tag subsections, merged types.",
